@@ -32,7 +32,9 @@ TornInv(tr, ls) ==
      \* at most one node is not yet linked, and nothing follows it
      /\ Cardinality(U) <= 1
      /\ \A b \in U : \A x \in (b + 1)..Len(tr) : tr[x].t /\ tr[x].s = tr[b].s
-     /\ \A k \in 1..Len(ls) : IsHead(tr, ls[k].tg) /\ ls[k].pv \in 0..(k - 1)
+     \* every link block names an existing node -- unless the trie file has just been re-created
+     \* empty by clear(): the old link store is then unreachable garbage until it is emptied too
+     /\ Len(tr) = 0 \/ \A k \in 1..Len(ls) : IsHead(tr, ls[k].tg) /\ ls[k].pv \in 0..(k - 1)
 
 (* the pages / links a traversal of the torn files reports *)
 TornPages(tr) == { Windup(tr, b) : b \in { x \in Reach(tr) : tr[x].pg } }
